@@ -26,6 +26,7 @@
 #include <time.h>
 #include <unistd.h>
 #include <arpa/inet.h>
+#include <signal.h>
 
 #define MAXW 8
 #define STALL_S 6.0
@@ -44,6 +45,7 @@ typedef struct {
   _Atomic(const char *) what;
   coap_session_t *sess;
   coap_session_t *ping_sess;
+  coap_session_t *idle_sess;
   atomic_int finished;
 } worker_t;
 static worker_t W[MAXW + 1];          /* W[nworkers] is the I/O thread */
@@ -256,6 +258,13 @@ static void *worker_main(void *arg) {
     return NULL;
   }
   w->ping_sess = coap_new_client_session(ctx, NULL, &srv_addr, COAP_PROTO_UDP);
+  w->idle_sess = coap_new_client_session(ctx, NULL, &srv_addr, COAP_PROTO_UDP);
+  if (w->idle_sess) {     /* one exchange to establish it, then left idle for the keepalive */
+    coap_session_t *keep = w->sess;
+    w->sess = w->idle_sess;
+    op_send(w, "r0", 1, COAP_REQUEST_CODE_GET);
+    w->sess = keep;
+  }
   atomic_store(&w->what, "observe");
   op_observe(w);
   unsigned k = 0;
@@ -280,6 +289,7 @@ static void *worker_main(void *arg) {
   atomic_store(&w->what, "release");
   coap_session_release(w->sess);
   if (w->ping_sess) coap_session_release(w->ping_sess);
+  if (w->idle_sess) coap_session_release(w->idle_sess);
   atomic_store(&w->what, "done");
   atomic_fetch_add(&w->progress, 1);
   atomic_store(&w->finished, 1);
@@ -309,6 +319,9 @@ static void dump_lock(void) {
 #endif
 }
 
+static void on_sigusr1(int sig) { (void)sig; }
+static atomic_ulong n_eintr;
+
 static int watchdog(double until, int need_finished) {
   unsigned long last[MAXW + 1];
   double since[MAXW + 1];
@@ -319,6 +332,12 @@ static int watchdog(double until, int need_finished) {
   }
   for (;;) {
     usleep(100 * 1000);
+    /* interrupt the I/O thread's epoll_wait()/select(): exercises the EINTR path, which has its
+       own re-lock */
+    if (!atomic_load(&W[nworkers].finished)) {
+      pthread_kill(W[nworkers].th, SIGUSR1);
+      atomic_fetch_add(&n_eintr, 1);
+    }
     double t = now_s();
     int all_finished = 1;
     for (int i = 0; i < n; i++) {
@@ -359,6 +378,7 @@ int main(int argc, char **argv) {
   ctx = coap_new_context(NULL);
   if (!ctx) { printf("stress FAILED no context\n"); return 2; }
   coap_context_set_block_mode(ctx, COAP_BLOCK_USE_LIBCOAP);
+  coap_context_set_keepalive(ctx, 1);      /* idle sessions are pinged by the library after 1 s: RST -> pong handler */
   coap_address_t bind;
   coap_address_init(&bind);
   bind.addr.sin.sin_family = AF_INET;
@@ -388,6 +408,10 @@ int main(int argc, char **argv) {
   coap_register_ping_handler(ctx, hnd_ping);
   coap_register_pong_handler(ctx, hnd_pong);
 
+  struct sigaction sa;
+  memset(&sa, 0, sizeof(sa));
+  sa.sa_handler = on_sigusr1;            /* no SA_RESTART: the wait returns EINTR */
+  sigaction(SIGUSR1, &sa, NULL);
   W[nworkers].id = nworkers;
   pthread_create(&W[nworkers].th, NULL, io_main, &W[nworkers]);
   for (int i = 0; i < nworkers; i++) {
@@ -418,10 +442,10 @@ int main(int argc, char **argv) {
   coap_cleanup();
   printf("stress ok workers=%d ops=%lu sent=%lu requests=%lu responses=%lu followups=%lu nacks=%lu "
          "events=%lu pings=%lu pongs=%lu reentries=%lu sessions=%lu resources=%lu cache=%lu async=%lu "
-         "notifies=%lu\n", nworkers,
+         "notifies=%lu eintr=%lu\n", nworkers,
          atomic_load(&n_ops), atomic_load(&n_sent), atomic_load(&n_req), atomic_load(&n_resp),
          atomic_load(&n_followup), atomic_load(&n_nack), atomic_load(&n_event), atomic_load(&n_ping),
          atomic_load(&n_pong), atomic_load(&n_reent), atomic_load(&n_sess), atomic_load(&n_res),
-         atomic_load(&n_cache), atomic_load(&n_async), atomic_load(&n_notify));
+         atomic_load(&n_cache), atomic_load(&n_async), atomic_load(&n_notify), atomic_load(&n_eintr));
   return 0;
 }
